@@ -174,7 +174,8 @@ type Options struct {
 
 func ch(label string, n int) int { return simrt.Choice(label, n) }
 
-var dirs = []string{"", "a", "a/b", "c", "c/d", "ab"}
+// dirs: nested, prefix-sharing names (a, ab), and equally named directories at the same depth of sibling trees (a/b, c/b)
+var dirs = []string{"", "a", "a/b", "c", "c/d", "ab", "c/b"}
 var bases = []string{"root", "alpha", "beta", "gamma", "delta", "shared"}
 
 // goBases are file names that collide with packages the generated code imports.
@@ -873,7 +874,12 @@ func (p *Program) genFields(f *File, prefix string, max int, o Options, union bo
 			case 0:
 				fd.Annot = fmt.Sprintf(`(go.tag = "json:\"j%d\"")`, id)
 			case 1:
-				fd.Annot = fmt.Sprintf(`(go.tag = "json:\"-\" yaml:\"y%d,flow\"")`, id)
+				if ch("field.tag-variant", 2) == 1 {
+					// both omitempty and !omitempty next to further options
+					fd.Annot = fmt.Sprintf(`(go.tag = "json:\"v%d,!omitempty,omitempty,string,unit\" db:\"c%d\"")`, id, id)
+				} else {
+					fd.Annot = fmt.Sprintf(`(go.tag = "json:\"-\" yaml:\"y%d,flow\"")`, id)
+				}
 			case 2:
 				fd.Annot = `(go.nolog = "true")`
 			case 3:
@@ -962,8 +968,15 @@ func (p *Program) genService(f *File, o Options) {
 			}
 			excs := p.visible(f, KException)
 			if len(excs) > 0 && simrt.Flip("fn.exc", 0.5) {
-				x := excs[ch("fn.exc-ref", len(excs))]
-				fn.Excs = append(fn.Excs, &FieldDef{ID: 1, Name: "err1", Req: ReqOptional, Type: &TypeRef{Ref: &Ref{x.File, x.Name}}})
+				// one exception as a rule; now and then several, the same type possibly twice
+				n := 1
+				if simrt.Flip("fn.exc-many", 0.3) {
+					n = 2 + ch("fn.exc-n", 4)
+				}
+				for k := 1; k <= n; k++ {
+					x := excs[ch("fn.exc-ref", len(excs))]
+					fn.Excs = append(fn.Excs, &FieldDef{ID: k, Name: fmt.Sprintf("err%d", k), Req: ReqOptional, Type: &TypeRef{Ref: &Ref{x.File, x.Name}}})
+				}
 			}
 		}
 		d.Funcs = append(d.Funcs, fn)
